@@ -165,6 +165,23 @@ def replay(lib, ob, cex):
     # the shape of the session either way: m branch steps, then the tweak step - success ends the commitment phase, failure must leave it in place (Failed is sticky)
     shape_ok = [list(s) for s in nat['steps']] in (pre + [[1, m + 1, 0]], pre + [[0, m, 1]])
     bad = (not shape_ok) or (okn and (nat['leaf'] == 'unset' or bytes(nat['leaf']) != ks[0]))
+    if not bad and not okn:
+        # the solver's counterexample passes the tweak check only in the model (uninterpreted curve functions): rebuild it as a REAL commitment
+        # (control block path / script of the counterexample, internal key = the generator's x) so that the native session reaches the hand-over
+        import hashlib, ctypes
+        def tagged(tag, data): t = hashlib.sha256(tag).digest(); return hashlib.sha256(t + t + bytes(data)).digest()
+        gx = bytes.fromhex('79be667ef9dcbbac55a06295ce870b07029bfcdb2dce28d959f2815b16f81798')
+        for i in range(32): V['c%d' % (1 + i)] = gx[i]
+        _, (ctrl2, _, scr2) = concrete_run(lib, ob, V)
+        ks2 = bip341_concrete(ctrl2, [0] * 32, scr2, m)
+        out = (ctypes.c_ubyte * 33)()
+        if lib.w_real_tweak((ctypes.c_ubyte * 32)(*gx), (ctypes.c_ubyte * 32)(*tagged(b'TapTweak', gx + ks2[-1])), out):
+            V2 = dict(V); V2['c0'] = (V.get('c0', 0xc0) & 0xfe) | out[0]
+            for i in range(32): V2['p%d' % i] = out[1 + i]
+            nat2, _ = concrete_run(lib, ob, V2)
+            ok2 = nat2['steps'] and nat2['steps'][-1][0] == 1 and [list(s) for s in nat2['steps']] == pre + [[1, m + 1, 0]]
+            if not ok2 or nat2['leaf'] == 'unset' or bytes(nat2['leaf']) != ks2[0]:
+                return True, 'native session on a real commitment (control block / script of the counterexample, internal key G): %s, BIP341 leaf hash %s' % (sesslib.short(nat2), ks2[0].hex())
     return bool(bad), 'native session commitment phase: %s' % sesslib.short(nat)
 
 def validate(E, lib):
